@@ -68,11 +68,14 @@ def _cases(draw):
     scale = draw(st.sampled_from([1.0, 1.0, 1.0, 1.0, 1e-4, 1e-8, 1e5, 2.0 ** -200, 2.0 ** -260, 2.0 ** 170, 2.0 ** 250]))
     if scale != 1.0:
         cols = [[v * scale for v in c] for c in cols]
-    elif ny > 1 and draw(st.integers(0, 2)) == 0:
+    elif ny > 1 and draw(st.integers(0, 1)) == 0:
         # components of very different magnitude in one call (a count next to a p-value)
         scale = "per-component"
         cs = draw(st.lists(st.sampled_from([1.0, 2.0 ** 190, 2.0 ** -190, 2.0 ** 130, 2.0 ** -250, 1e80, 1e-10]),
                            min_size=ny, max_size=ny))
+        if draw(st.booleans()):
+            # ... at least two of them more than 2^370 apart
+            cs[0], cs[-1] = draw(st.sampled_from([2.0 ** 190, 1e80])), draw(st.sampled_from([2.0 ** -190, 2.0 ** -250]))
         cols = [[v * c_ for v in c] for c, c_ in zip(cols, cs)]
     nan_mask = [[False] * n for _ in range(ny)]
     if n > 1 and draw(st.booleans()):
